@@ -6,6 +6,14 @@ NOT_APPLICABLE = {
  'C01': 'pure function of (input, parameters): no schedule, call history, fault, clock or shared state for a simulator to control; seeded input generation alone would not be simulation (DESIGN.md section 4, C01)',
 }
 CLAIMS = {
+ 'C11': dict(level='exploration', design_ref='DESIGN.md section 4 C11, section 2.2',
+   technique='deterministic simulation: seeded schedule search over real zstdmt/pool threads behind the pthread seam, fault injection (spurious wake-ups, pthread_create failure, allocation failure), ThreadSanitizer/ASan flavours, independent-decoder oracle',
+   text='Seeded search over MT sessions (1-3 frames per context, per-frame worker counts, dictionaries/prefix/CDict, mid-frame level changes, abandoned frames + reset, free mid-frame) x schedules x fault plans on the real zstdmt_compress.c/pool.c; scheduler monitors deadlock, livelock, sync misuse and thread leaks; every completed frame round-trips through the library decoder and is accepted by an independent decoder; same runs under ThreadSanitizer (race freedom, which also justifies exploring interleavings only at synchronisation operations) and ASan/UBSan. Sampling: evidence, not proof.',
+   note='pthread primitives simulated with POSIX semantics; fairness forced after 500 decisions of starvation (zstd busy-waits on tryAdd); TSan shadow history is bounded; inputs up to 3 MiB (quick) / 6 MiB (thorough), up to 4 workers.'),
+ 'C13': dict(level='fault_enumeration', design_ref='DESIGN.md section 4 C13, section 2.3',
+   technique='deterministic simulation with exhaustive allocation-fault enumeration: for each API scenario the k-th allocation (custom allocator seam, or libc via --wrap for trainers/default allocator) fails, for every k, under a fixed simulated schedule',
+   text='For each of 16 API scenarios (contexts, dictionaries, CDict/DDict, ST/MT one-shot and streaming incl. worker-count growth, DStream growth, multi-DDict, prefix+LDM, MT/ST alternation, cover/fastCover/legacy/finalize trainers, default-allocator MT context) the allocation count n is measured fault-free under the run\'s own schedule and then every k in 1..n is failed in turn (thorough: several variants and a second fault); oracle: no crash/sanitizer report, NULL or error code, live set empty and no wrong-deallocator free after the objects are freed, and after ZSTD_CCtx_reset/ZSTD_DCtx_reset the same operation succeeds and round-trips.',
+   note='Exhaustive over k per (scenario, variant) only; the catalogue is a sample of the API; MT allocation order is fixed by the simulated schedule, other schedules give other orders (thorough varies the schedule seed per variant).'),
  'C12': dict(level='exploration', design_ref='DESIGN.md section 4 C12, section 2.2',
    technique='deterministic simulation: seeded schedule search (random walk / PCT / sticky / starve) over the real pool with spurious-wakeup and thread-creation faults, pool reference model as oracle, TSan+ASan flavours',
    text='Seeded search over client programs x pool configurations x schedules of the real lib/common/pool.c with every synchronisation operation decided by the simulator; each accepted job checked against a pool model (exactly once, join post-condition, free joins all, no leak), quiescent states classified against the model (lost wake-up vs inherent client deadlock); same runs under ThreadSanitizer and AddressSanitizer. Sampling, not exhaustive enumeration: a clean batch is evidence, not proof.',
